@@ -242,7 +242,12 @@ def flipped_identity_tile(cfg):
 
 
 def classify(cfg, key):
-    return "flipped-identity-tile" if flipped_identity_tile(cfg) else key
+    """the open rasterio finding absorbs a violation only when its exact trigger is present and the violation is a
+    pixel mismatch of the same-CRS comparisons; coverage / history / joint / tall violations keep their own key"""
+    if key in ("equal", "direct", "complete-deps", "disjoint") and cfg.get("src_crs") == cfg.get("dst_crs") \
+            and flipped_identity_tile(cfg):
+        return "flipped-identity-tile"
+    return key
 
 
 def p_equal(cfg):
@@ -564,8 +569,136 @@ def p_joint(cfg):
     return True, f"{len(kws)} results computed jointly agree", "joint"
 
 
-PREDICATES = {"tall": p_tall, "joint": p_joint, "equal": p_equal, "fill": p_fill, "disjoint": p_disjoint, "direct": p_direct,
+def pyproj_source_coords(cfg):
+    """float source pixel coordinates (column, row) of every destination pixel centre, with pyproj called directly
+    (its own Transformer, always_xy=True) and plain affine arithmetic: independent of odc-geo's CRS layer"""
+    from affine import Affine
+    from pyproj import Transformer
+
+    H, W = cfg["dst_shape"]
+    D, S = Affine(*cfg["dst_tr"]), Affine(*cfg["src_tr"])
+    cc, rr = np.meshgrid(np.arange(W) + 0.5, np.arange(H) + 0.5)
+    X, Y = D * (cc, rr)
+    if cfg["src_crs"] != cfg["dst_crs"]:
+        t = Transformer.from_crs(cfg["dst_crs"], cfg["src_crs"], always_xy=True)
+        X, Y = t.transform(X, Y)
+    X, Y = np.asarray(X, dtype="float64"), np.asarray(Y, dtype="float64")
+    sc, sr = (~S) * (X, Y)
+    return np.asarray(sc), np.asarray(sr)
+
+
+def p_cover(cfg):
+    """any CRS pair, any orientation of the grids: no error; destination pixels whose centre maps (pyproj) at least
+    half a pixel inside the source hold data - in memory and in EVERY chunk; pixels mapping a pixel or more outside
+    hold the fill; data comes from the 3x3 neighbourhood of the exact source pixel.  Requires a source without
+    nodata-valued pixels and a fill that is not a data value."""
+    try:
+        data, whole, chunked, sgb, dgb = run_xr(cfg)
+    except Exception as e:  # noqa: BLE001
+        return False, f"raised {type(e).__name__}: {str(e)[:200]}", "cover"
+    if whole.shape != chunked.shape or whole.dtype != chunked.dtype:
+        return False, f"shape/dtype differ: {whole.shape} {whole.dtype} vs {chunked.shape} {chunked.dtype}", "cover"
+    h, w = cfg["src_shape"]
+    sc, sr = pyproj_source_coords(cfg)
+    fin = np.isfinite(sc) & np.isfinite(sr)
+    inside = fin & (sc > 0.5) & (sc < w - 0.5) & (sr > 0.5) & (sr < h - 0.5)
+    outside = fin & ((sc < -1) | (sc > w + 1) | (sr < -1) | (sr > h + 1))
+    inner = fin & (sc > 1.5) & (sc < w - 1.5) & (sr > 1.5) & (sr < h - 1.5)
+    ir = np.clip(np.floor(np.where(fin, sr, 0)).astype(int), 1, max(h - 2, 1))
+    ic = np.clip(np.floor(np.where(fin, sc, 0)).astype(int), 1, max(w - 2, 1))
+    fill = fill_of(cfg)
+    src3 = yx_first(data, cfg)
+    for name, arr in (("in-memory", whole), ("chunked", chunked)):
+        a = yx_first(arr, cfg)
+        isfill = is_val(a, fill)
+        miss = inside[:, :, None] & isfill
+        if miss.any():
+            y, x, k = [int(v[0]) for v in np.nonzero(miss)]
+            return False, (f"{name}: {int(miss.sum())} of {int(inside.sum()) * a.shape[2]} pixel(s) covered by the source hold the "
+                           f"fill {fill!r}, first at (y={y}, x={x}, plane={k}) which maps to source (col={sc[y, x]:.2f}, "
+                           f"row={sr[y, x]:.2f})"), "cover"
+        extra = outside[:, :, None] & ~isfill
+        if extra.any():
+            y, x, k = [int(v[0]) for v in np.nonzero(extra)]
+            return False, (f"{name}: {int(extra.sum())} pixel(s) outside of the source hold data, first at (y={y}, x={x}, "
+                           f"plane={k}) = {a[y, x, k]!r}, maps to source (col={sc[y, x]:.2f}, row={sr[y, x]:.2f})"), "cover"
+        if h >= 3 and w >= 3:
+            ok = np.zeros(a.shape, dtype=bool)
+            for dy in (-1, 0, 1):
+                for dx in (-1, 0, 1):
+                    ok |= a == src3[ir + dy, ic + dx, :]
+            wrong = inner[:, :, None] & ~ok
+            if wrong.any():
+                y, x, k = [int(v[0]) for v in np.nonzero(wrong)]
+                return False, (f"{name}: {int(wrong.sum())} pixel(s) hold a value that is not near the right source location, "
+                               f"first at (y={y}, x={x}, plane={k}) = {a[y, x, k]!r}"), "cover"
+    return True, f"{int(inside.sum())} covered, {int(outside.sum())} outside pixel(s)", "cover"
+
+
+PREDICATES = {"cover": p_cover, "tall": p_tall, "joint": p_joint, "equal": p_equal, "fill": p_fill, "disjoint": p_disjoint, "direct": p_direct,
               "complete-deps": p_complete_deps}
+from vlib import crshist  # noqa: E402
+
+PREDICATES["after_history"] = crshist.after_history(PREDICATES)
+
+# source grids for the coverage predicate: (crs, pixel size, x of the west edge, y of the north edge) around 147E 36S
+COVER_SRC = {"epsg:32755": (100.0, 500000.0, 6006000.0), "epsg:4326": (0.001, 147.0, -36.0),
+             "epsg:3857": (120.0, 16364000.0, -4300000.0), "epsg:3577": (100.0, 1300000.0, -4000000.0)}
+HIST_CRS = "epsg:32755"   # pairs with this CRS are first used after a history (see run)
+
+
+def rand_cover(rng, i, with_hist_crs):
+    """cross-CRS pair with the source in one of the four axis orientations (north-up, x-mirrored, south-up, rotated
+    by 180 degrees), the destination laid out around its footprint with pyproj, thin / single-pixel / ordinary
+    destination chunks"""
+    from pyproj import Transformer
+
+    crss = sorted(COVER_SRC)
+    if with_hist_crs:
+        other = rng.choice([c for c in crss if c != HIST_CRS])
+        sc_, dc_ = (HIST_CRS, other) if i % 2 == 0 else (other, HIST_CRS)
+    else:
+        sc_, dc_ = rng.sample([c for c in crss if c != HIST_CRS], 2)
+    res, x0, y1 = COVER_SRC[sc_]
+    tiny = i % 4 == 3
+    h, w = (rng.randint(6, 9), rng.randint(6, 10)) if tiny else (rng.randint(14, 24), rng.randint(14, 26))
+    x0, y1 = x0 + rng.randint(-20, 20) * res, y1 + rng.randint(-20, 20) * res
+    orient = ["x-mirrored", "north-up", "rot180", "x-mirrored", "south-up"][i % 5]
+    a, c = (res, x0) if orient in ("north-up", "south-up") else (-res, x0 + w * res)
+    e, f = (-res, y1) if orient in ("north-up", "x-mirrored") else (res, y1 - h * res)
+    src_tr = [a, 0, c, 0, e, f]
+    t = Transformer.from_crs(sc_, dc_, always_xy=True)
+    n = 9
+    ex = np.concatenate([np.linspace(x0, x0 + w * res, n), np.full(n, x0 + w * res), np.linspace(x0, x0 + w * res, n), np.full(n, x0)])
+    ey = np.concatenate([np.full(n, y1), np.linspace(y1 - h * res, y1, n), np.full(n, y1 - h * res), np.linspace(y1 - h * res, y1, n)])
+    bx, by = t.transform(ex, ey)
+    dres = COVER_SRC[dc_][0]
+    pad = rng.randint(3, 6)
+    dx0 = math.floor(min(bx) / dres) * dres - pad * dres
+    dy1 = math.ceil(max(by) / dres) * dres + pad * dres
+    W = int(math.ceil((max(bx) - dx0) / dres)) + pad
+    H = int(math.ceil((dy1 - min(by)) / dres)) + pad
+    dst_tr = [dres, 0, dx0, 0, -dres, dy1]
+    if i % 7 == 5:     # destination mirrored in x as well
+        dst_tr = [-dres, 0, dx0 + W * dres, 0, -dres, dy1]
+    if tiny:
+        dch = [1, 1]
+    else:
+        dch = rng.choice([[H, 1], [1, W], [H, 1], [1, W], [H, 2], [2, W], [H, 3], [3, W], [5, 7], [32, 32]])
+    dtype = rng.choice(["int16", "uint8", "float32", "int32"])
+    # nodata values that mk_data never produces: no source pixel is nodata, the fill is never a data value
+    absent = [0, 251, 255] if dtype == "uint8" else [0, -5, 1000, 30000]
+    attr = rng.choice([None, None] + absent)
+    kw = rng.choice([None, None, None] + absent)
+    dn = rng.choice([None, None] + absent + (["nan"] if dtype == "float32" else []))
+    cfg = {"kind": "cover:" + orient, "src_shape": [h, w], "src_tr": src_tr, "src_crs": sc_, "dst_shape": [H, W],
+           "dst_tr": dst_tr, "dst_crs": dc_, "dtype": dtype, "nodata_attr": attr, "src_nodata": kw, "dst_nodata": dn,
+           "nodata_pixels": False, "zeros": False,
+           "src_chunks": [rand_chunks(rng, h), rand_chunks(rng, w)], "dst_chunks": dch,
+           "scheduler": "synchronous", "optimize": True, "layout": "yx"}
+    if i % 3 == 0 and not tiny:
+        cfg["layout"], cfg["T"], cfg["t_chunk"] = "tyx", rng.choice([2, 3]), rng.choice([1, 2])
+    return cfg
 
 
 # ------------------------------------------------------------------ generators
@@ -986,7 +1119,9 @@ def run(out, tier, scratch):
     rng = core.rng("c13")
     found = {}
 
-    def judge(name, cfg, src):
+    def judge(name, cfg, src, hist=None):
+        """hist = (perturbation names, CRS specs) already applied to this process: recorded so that the replay applies
+        them in a fresh process before evaluating the predicate"""
         try:
             ok, detail, key = PREDICATES[name](cfg)
         except Exception as e:  # noqa: BLE001
@@ -999,15 +1134,27 @@ def run(out, tier, scratch):
                  {"predicate": name, "cfg": cfg, "result": detail} if name == "equal" and len(out.samples) < 5 else None)
         if not ok:
             key = classify(cfg, key)
+            if hist is not None:
+                key = "after-history:" + key
             out.count("violated:" + key)
             if key not in found:
                 found[key] = True
-                out.violation(f"c13:{key}", f"{src}: {name}: {detail}", {"predicate": name, "args": [cfg], "observed": detail})
+                if hist is None:
+                    out.violation(f"c13:{key}", f"{src}: {name}: {detail}", {"predicate": name, "args": [cfg], "observed": detail})
+                else:
+                    out.violation(f"c13:{key}", f"{src} after {list(hist[0])}: {name}: {detail}",
+                                  {"predicate": "after_history", "args": [list(hist[0]), list(hist[1]), name, [cfg]],
+                                   "observed": detail})
         return ok
 
     # 1. corpus first
     for rp in core.corpus(ID):
-        judge(rp["predicate"], rp["args"][0], "corpus " + rp["_file"])
+        if rp["predicate"] == "after_history":
+            hn, sp, nm, aa = rp["args"]
+            crshist.perturb(tuple(hn), tuple(sp))
+            judge(nm, aa[0], "corpus " + rp["_file"], hist=(hn, sp))
+        else:
+            judge(rp["predicate"], rp["args"][0], "corpus " + rp["_file"])
 
     # 2. decision logic
     cases = decision_cases(out)
@@ -1094,6 +1241,9 @@ def run(out, tier, scratch):
                 cfg["variants"][1]["dst_nodata"] = a
         cfg["how"] = rng.choice(["compute", "dataset"])
         judge("joint", cfg, f"joint {i}")
+    # coverage judged with pyproj directly: mirrored / rotated sources, thin and single-pixel destination chunks
+    for i in range(14 if tier == "quick" else 150):
+        judge("cover", rand_cover(rng, i, False), f"cover {i}")
     n_x = 40 if tier == "quick" else 600
     for i in range(n_x):
         judge("fill", rand_cross_crs(rng), f"cross-crs {i}")
@@ -1107,11 +1257,27 @@ def run(out, tier, scratch):
                 judge("complete-deps", metas[i][0], "disagreeing case")
                 judge("equal", dict(metas[i][0], nodata_attr=None), "disagreeing case")
 
+    # 5. cross-CRS cases after a process history - LAST, so that every case above replays unperturbed.  The transformer /
+    # CRS caches of odc.geo.crs are first-come: the pairs with HIST_CRS are used nowhere else in this check (corpus
+    # witnesses with a history excepted), so the perturbation really precedes their first use, exactly as it does in the
+    # fresh process of a replay.
+    rng_h = core.rng("c13-history")
+    specs = sorted(COVER_SRC)
+    hist = (("authority-order-first", "queries-first"), specs)
+    crshist.perturb(*hist)
+    for i in range(6 if tier == "quick" else 30):
+        judge("cover", rand_cover(rng_h, i, True), f"history {i}", hist=hist)
+    hist2 = (("authority-order-first", "queries-first", "churn"), specs)
+    crshist.perturb(("churn",), specs)
+    for i in range(2 if tier == "quick" else 10):
+        judge("cover", rand_cover(rng_h, i + 1, True), f"history+churn {i}", hist=hist2)
+        judge("fill", dict(rand_cover(rng_h, i, True), kind="cover-fill"), f"history+churn {i}", hist=hist2)
+
 
 def replay(rp) -> int:
     name = rp["predicate"]
     ok, detail, key = PREDICATES[name](*rp["args"])
-    if not ok:
+    if not ok and isinstance(rp["args"][0], dict):
         key = classify(rp["args"][0], key)
     print(f"replay {name} {json.dumps(rp['args'])[:400]}: {'holds' if ok else 'FAILS'}: {detail}")
     return 0 if ok else 1
